@@ -92,11 +92,24 @@ type c02epBed struct {
 	router string
 	algs   []string // configured allow-list (nil: no option given)
 	set    []pubKey // the published key set, in the order Storage.KeySet returns it
+	cfg    *c02cfg  // part 7: the construction call of this provider (nil: parts 5 / 6)
 }
 
 // c02epNewBed: a provider with the given allow-list for BOTH derived verifiers; the storage publishes ring key 0 (the
 // signing key, kid sig1) followed by `extra`.
 func c02epNewBed(router string, algs []string, extra []pubKey) *c02epBed {
+	var opts []op.Option
+	if algs != nil {
+		opts = append(opts, op.WithAccessTokenVerifierOpts(op.WithSupportedAccessTokenSigningAlgorithms(algs...)),
+			op.WithIDTokenHintVerifierOpts(op.WithSupportedIDTokenHintSigningAlgorithms(algs...)))
+	}
+	cb := c02epNewBedOpts(router, opts, extra)
+	cb.algs = algs
+	return cb
+}
+
+// c02epNewBedOpts: the same provider, constructed with the given option list (after the harness' own WithLogger)
+func c02epNewBedOpts(router string, opts []op.Option, extra []pubKey) *c02epBed {
 	key := hx.Keys()[0]
 	st := refstore.New(refstore.SigningKeySpec{Kid: "sig1", Alg: jose.RS256, Priv: key.Priv, Pub: key.Pub})
 	set := []pubKey{{key, "sig1", "sig"}}
@@ -116,11 +129,6 @@ func c02epNewBed(router string, algs []string, extra []pubKey) *c02epBed {
 	st.AddUser("user-1", map[string]any{"name": "U One"})
 	base := st.With(refstore.Caps{TE: true})
 	ws := &c02epStore{Storage: base, TokenExchangeStorage: base.(op.TokenExchangeStorage)}
-	var opts []op.Option
-	if algs != nil {
-		opts = append(opts, op.WithAccessTokenVerifierOpts(op.WithSupportedAccessTokenSigningAlgorithms(algs...)),
-			op.WithIDTokenHintVerifierOpts(op.WithSupportedIDTokenHintSigningAlgorithms(algs...)))
-	}
 	cryptoKey := sha256.Sum256([]byte("verif-crypto-key"))
 	oc := &op.Config{CryptoKey: cryptoKey, DefaultLogoutRedirectURI: "https://op.example/logged-out", CodeMethodS256: true, AuthMethodPost: true,
 		AuthMethodPrivateKeyJWT: true, GrantTypeRefreshToken: true, SupportedClaims: op.DefaultSupportedClaims}
@@ -134,7 +142,7 @@ func c02epNewBed(router string, algs []string, extra []pubKey) *c02epBed {
 	} else {
 		b.Handler = p
 	}
-	return &c02epBed{Bed: b, st: ws, router: router, algs: algs, set: set}
+	return &c02epBed{Bed: b, st: ws, router: router, set: set}
 }
 
 const c02AssertionClient = "jwtc"
@@ -308,6 +316,10 @@ func (e *c02Env) endpointCase(r *hx.Rand, cb *c02epBed, c c02epCase) {
 	l.S("v.iss", opbed.Issuer)
 	if cb.algs != nil {
 		l.S("v.cfg", "1")
+	}
+	if cb.cfg != nil {
+		cb.cfg.line(l)
+		cb.cfg.count(e.stats, c02epIsHint(c.ep), c.signer, believed)
 	}
 	ksLinePub(l, "published", cb.set)
 	l.I("now0", t0.UnixNano()).I("now1", t1.UnixNano()).L("v.algs", cb.algs).S("t.jti", jti)
